@@ -28,6 +28,7 @@ CONSTANTS Scheds,     \* Scheds[i] = [p, ph]: schedule of the i-th entry added
                       \* | "sharedmu" (DelayIfStillRunning's mutex shared by all entries of the Cron)
                       \* | "delayNoDefer" (DelayIfStillRunning unlocks without defer: a panicking job leaves the entry's mutex locked)
                       \* | "runResetsRunning" (Run() clears c.running when it returns, whenever that is)
+                      \* | "removeNoLock" (Remove does not take runningMu: it can be left sending on the remove channel for ever)
           Panicking,  \* ids whose job panics on its first invocation (only with a chain that contains Recover)
           Chain       \* the WithChain option: "none" | "delay" | "skip" | "recover+delay" | "recover+skip" (Recover alone is the identity here)
 
@@ -37,6 +38,9 @@ Ids == 1..N
 VARIABLES now, running, list, nx, pv, nadded, lpc, lnow, wi, timer,
           cpc, cop, reply, nops, nstops, jobs, wg, watchers, c,
           chain,      \* the chain in use (the constant Chain when model checking, the recorded one when replaying a trace)
+          rm,         \* a second caller that only calls Remove, concurrently with the first one's Stop: [pc, id] with pc
+                      \* "idle" | "called" (waits for runningMu) | "sending" | "got" | "done" (returned, not yet recorded).  runningMu is held by the first caller
+                      \* while its cpc is "sending"/"got", by this one while its pc is "sending"/"got".
           jx,         \* jobs' extras: pan (ids whose job panics on its first invocation), done (those that did), stuck (ids
                       \* whose delay mutex was left locked)
           rx,         \* Run(): cur (number of the Run call whose goroutine runs the current loop, 0: started by Start), old
@@ -44,7 +48,7 @@ VARIABLES now, running, list, nx, pv, nadded, lpc, lnow, wi, timer,
                       \* Cron running and have not returned yet), n (Run calls so far)
           sch, blk    \* sch[i]: schedule of entry i, blk: ids whose job blocks - filled by the Schedule call (from the
                       \* constants when model checking, from the recorded call when a trace of the real Cron is replayed)
-vars == <<now, running, list, nx, pv, nadded, lpc, lnow, wi, timer, cpc, cop, reply, nops, nstops, jobs, wg, watchers, c, chain, sch, blk, jx, rx>>
+vars == <<now, running, list, nx, pv, nadded, lpc, lnow, wi, timer, cpc, cop, reply, nops, nstops, jobs, wg, watchers, c, chain, sch, blk, jx, rx, rm>>
 
 Off == [on |-> FALSE, dl |-> 0, fired |-> FALSE, buf |-> FALSE, val |-> 0]
 NoOp == [op |-> "none", id |-> 0]
@@ -59,6 +63,7 @@ InitWith(ch) ==
         /\ jobs = << >> /\ wg = 0 /\ watchers = {} /\ c = CInitC(0, ch) /\ chain = ch
         /\ sch = [i \in Ids |-> [p |-> 0, ph |-> 0]] /\ blk = {}
         /\ jx = [pan |-> {}, done |-> {}, stuck |-> {}] /\ rx = [cur |-> 0, old |-> {}, noop |-> {}, n |-> 0]
+        /\ rm = [pc |-> "idle", id |-> 0]
 
 Init == InitWith(Chain)
 
@@ -76,7 +81,10 @@ Sorted(s) == CHOOSE t \in [1..Len(s) -> Range(s)] :
                /\ \A a, b \in 1..Len(s) : a < b => (t[a] # t[b] /\ ~Less(s, t[b], t[a]))
 
 (* ---------------- the caller ---------------- *)
+RemHolds == Variant # "removeNoLock" /\ rm.pc \in {"sending", "got"}       \* the second caller holds runningMu
+MainHolds == cpc \in {"sending", "got"}                                    \* the first caller holds runningMu
 Begin(op, id) == /\ cpc = "idle" /\ nops < MaxOps /\ nops' = nops + 1
+                 /\ (op # "stop" => rm.pc = "idle")    \* only a Stop is issued next to the second caller's Remove
                  /\ cop' = [op |-> op, id |-> id]
 
 CallSchedWith(p, ph, b, pn) ==
@@ -90,7 +98,7 @@ CallSchedWith(p, ph, b, pn) ==
           THEN /\ cpc' = "sending" /\ c' = Feed(c, <<call>>) /\ UNCHANGED list
           ELSE /\ list' = Append(list, id) /\ cpc' = "idle"
                /\ c' = Feed(c, <<call, [ev |-> "sched_ret", id |-> id]>>)
-  /\ UNCHANGED <<now, running, nx, pv, lpc, lnow, wi, timer, reply, nstops, jobs, wg, watchers, chain, rx>>
+  /\ UNCHANGED <<now, running, nx, pv, lpc, lnow, wi, timer, reply, nstops, jobs, wg, watchers, chain, rx, rm>>
 
 CallRemove(id) ==
   /\ id \in Range(list) /\ Begin("remove", id)
@@ -99,20 +107,20 @@ CallRemove(id) ==
           THEN /\ cpc' = "sending" /\ c' = Feed(c, <<call>>) /\ UNCHANGED list
           ELSE /\ list' = Without(list, id) /\ cpc' = "idle"
                /\ c' = Feed(c, <<call, [ev |-> "remove_ret", id |-> id]>>)
-  /\ UNCHANGED <<now, running, nx, pv, nadded, lpc, lnow, wi, timer, reply, nstops, jobs, wg, watchers, chain, sch, blk, jx, rx>>
+  /\ UNCHANGED <<now, running, nx, pv, nadded, lpc, lnow, wi, timer, reply, nstops, jobs, wg, watchers, chain, sch, blk, jx, rx, rm>>
 
 CallEntries ==
   /\ Begin("entries", 0)
   /\ IF running
        THEN /\ cpc' = "sending" /\ c' = Feed(c, <<[ev |-> "entries_call"]>>)
        ELSE /\ cpc' = "idle" /\ c' = Feed(c, <<[ev |-> "entries_call"], [ev |-> "entries_ret", list |-> Snapshot]>>)
-  /\ UNCHANGED <<now, running, list, nx, pv, nadded, lpc, lnow, wi, timer, reply, nstops, jobs, wg, watchers, chain, sch, blk, jx, rx>>
+  /\ UNCHANGED <<now, running, list, nx, pv, nadded, lpc, lnow, wi, timer, reply, nstops, jobs, wg, watchers, chain, sch, blk, jx, rx, rm>>
 
 CallStart ==
   /\ Begin("start", 0) /\ cpc' = "idle"
   /\ c' = Feed(c, <<[ev |-> "start"]>>)
   /\ IF running THEN UNCHANGED <<running, lpc, rx>> ELSE running' = TRUE /\ lpc' = "init" /\ rx' = [rx EXCEPT !.cur = 0]
-  /\ UNCHANGED <<now, list, nx, pv, nadded, lnow, wi, timer, reply, nstops, jobs, wg, watchers, chain, sch, blk, jx>>
+  /\ UNCHANGED <<now, list, nx, pv, nadded, lnow, wi, timer, reply, nstops, jobs, wg, watchers, chain, sch, blk, jx, rm>>
 
 (* Run(): the same on the caller's goroutine, which then IS the scheduler loop; on a running Cron it returns at once *)
 CallRun ==
@@ -120,37 +128,66 @@ CallRun ==
   /\ c' = Feed(c, <<[ev |-> "runcall", r |-> rx.n + 1]>>)
   /\ IF running THEN /\ UNCHANGED <<running, lpc>> /\ rx' = [rx EXCEPT !.n = @ + 1, !.noop = @ \cup {rx.n + 1}]
                 ELSE /\ running' = TRUE /\ lpc' = "init" /\ rx' = [rx EXCEPT !.n = @ + 1, !.cur = rx.n + 1]
-  /\ UNCHANGED <<now, list, nx, pv, nadded, lnow, wi, timer, reply, nstops, jobs, wg, watchers, chain, sch, blk, jx>>
+  /\ UNCHANGED <<now, list, nx, pv, nadded, lnow, wi, timer, reply, nstops, jobs, wg, watchers, chain, sch, blk, jx, rm>>
 (* ... and Run() returns: after its loop has ended, or at once *)
 RunReturn(r) ==                   \* several ended Run goroutines return in any order
   /\ r \in rx.old /\ rx' = [rx EXCEPT !.old = @ \ {r}]
   /\ c' = Feed(c, <<[ev |-> "runret", r |-> r]>>)
   /\ IF Variant = "runResetsRunning" THEN cpc = "idle" /\ running' = FALSE ELSE UNCHANGED running
-  /\ UNCHANGED <<now, list, nx, pv, nadded, lpc, lnow, wi, timer, cpc, cop, reply, nops, nstops, jobs, wg, watchers, chain, sch, blk, jx>>
+  /\ UNCHANGED <<now, list, nx, pv, nadded, lpc, lnow, wi, timer, cpc, cop, reply, nops, nstops, jobs, wg, watchers, chain, sch, blk, jx, rm>>
 RunNoopReturn ==
   /\ \E r \in rx.noop : /\ rx' = [rx EXCEPT !.noop = @ \ {r}]
                         /\ c' = Feed(c, <<[ev |-> "runret", r |-> r]>>)
-  /\ UNCHANGED <<now, running, list, nx, pv, nadded, lpc, lnow, wi, timer, cpc, cop, reply, nops, nstops, jobs, wg, watchers, chain, sch, blk, jx>>
+  /\ UNCHANGED <<now, running, list, nx, pv, nadded, lpc, lnow, wi, timer, cpc, cop, reply, nops, nstops, jobs, wg, watchers, chain, sch, blk, jx, rm>>
 RunRets == (\E r \in rx.old : RunReturn(r)) \/ RunNoopReturn
 
 CallStop ==
   /\ Begin("stop", nstops + 1) /\ nstops' = nstops + 1
   /\ LET k == nstops + 1
-     IN IF running
-          THEN /\ cpc' = "sending" /\ c' = Feed(c, <<[ev |-> "stop_call", k |-> k]>>) /\ UNCHANGED watchers
-          ELSE /\ cpc' = "idle" /\ watchers' = watchers \cup {k}
-               /\ c' = Feed(c, <<[ev |-> "stop_call", k |-> k], [ev |-> "stop_ret", k |-> k]>>)
-  /\ UNCHANGED <<now, running, list, nx, pv, nadded, lpc, lnow, wi, timer, reply, jobs, wg, chain, sch, blk, jx, rx>>
+     IN \* the call is made; runningMu is taken in a second step (StopLock): the second caller's Remove may get it first
+        /\ cpc' = "wantmu" /\ c' = Feed(c, <<[ev |-> "stop_call", k |-> k]>>) /\ UNCHANGED watchers
+  /\ UNCHANGED <<now, running, list, nx, pv, nadded, lpc, lnow, wi, timer, reply, jobs, wg, chain, sch, blk, jx, rx, rm>>
+StopLock ==                                   \* Stop gets runningMu (after the second caller's Remove released it, if it held it)
+  /\ cpc = "wantmu" /\ ~RemHolds
+  /\ IF running THEN cpc' = "sending" /\ UNCHANGED <<watchers, c>>
+                ELSE /\ cpc' = "idle" /\ watchers' = watchers \cup {cop.id}
+                     /\ c' = Feed(c, <<[ev |-> "stop_ret", k |-> cop.id]>>)
+  /\ UNCHANGED <<now, running, list, nx, pv, nadded, lpc, lnow, wi, timer, cop, reply, nops, nstops, jobs, wg, chain, sch, blk, jx, rx, rm>>
+
+(* ---- the second caller: Remove(id), possibly while the first caller's Stop is pending ---- *)
+RCall(id) == /\ rm.pc = "idle" /\ nops < MaxOps /\ nops' = nops + 1 /\ id \in Range(list)
+             /\ (cpc = "idle" \/ (cop.op = "stop" /\ cpc # "idle"))   \* alone, or next to a Stop in flight
+             /\ rm' = [pc |-> "called", id |-> id]
+             /\ c' = Feed(c, <<[ev |-> "remove_call", id |-> id]>>)
+             /\ UNCHANGED <<now, running, list, nx, pv, nadded, lpc, lnow, wi, timer, cpc, cop, reply, nstops, jobs, wg, watchers, chain, sch, blk, jx, rx>>
+(* Remove takes runningMu (not in the removeNoLock variant), reads c.running, then sends or removes directly *)
+RLock == /\ rm.pc = "called" /\ (Variant = "removeNoLock" \/ ~MainHolds)
+         /\ IF running THEN /\ rm' = [rm EXCEPT !.pc = "sending"] /\ UNCHANGED <<list, c>>
+                       ELSE /\ rm' = [rm EXCEPT !.pc = "idle"] /\ list' = Without(list, rm.id)
+                            /\ c' = Feed(c, <<[ev |-> "remove_ret", id |-> rm.id]>>)
+         /\ UNCHANGED <<now, running, nx, pv, nadded, lpc, lnow, wi, timer, cpc, cop, reply, nops, nstops, jobs, wg, watchers, chain, sch, blk, jx, rx>>
+RRelease == /\ rm.pc = "got" /\ rm' = [rm EXCEPT !.pc = "done"]
+            /\ UNCHANGED <<now, running, list, nx, pv, nadded, lpc, lnow, wi, timer, cpc, cop, reply, nops, nstops, jobs, wg, watchers, c, chain, sch, blk, jx, rx>>
+RRet == /\ rm.pc = "done" /\ rm' = [rm EXCEPT !.pc = "idle"]
+        /\ c' = Feed(c, <<[ev |-> "remove_ret", id |-> rm.id]>>)
+        /\ UNCHANGED <<now, running, list, nx, pv, nadded, lpc, lnow, wi, timer, cpc, cop, reply, nops, nstops, jobs, wg, watchers, chain, sch, blk, jx, rx>>
+Rem == RLock \/ RRelease \/ RRet
 
 (* the call returns (after the loop took the rendezvous) *)
+(* Stop and the second caller's Remove can be in flight together, so for them "the call has returned" (runningMu *)
+(* released) and "its return was recorded" are separate steps: the other call may be served, and even have its    *)
+(* return recorded, in between.                                                                                  *)
+RetRelease ==
+  /\ cpc = "got" /\ cop.op = "stop" /\ cpc' = "done" /\ running' = FALSE
+  /\ UNCHANGED <<now, list, nx, pv, nadded, lpc, lnow, wi, timer, cop, reply, nops, nstops, jobs, wg, watchers, c, chain, sch, blk, jx, rx, rm>>
 Ret ==
-  /\ cpc = "got" /\ cpc' = "idle"
+  /\ cpc = (IF cop.op = "stop" THEN "done" ELSE "got") /\ cpc' = "idle"
   /\ CASE cop.op = "sched"   -> c' = Feed(c, <<[ev |-> "sched_ret", id |-> cop.id]>>) /\ UNCHANGED <<running, watchers>>
        [] cop.op = "remove"  -> c' = Feed(c, <<[ev |-> "remove_ret", id |-> cop.id]>>) /\ UNCHANGED <<running, watchers>>
        [] cop.op = "entries" -> c' = Feed(c, <<[ev |-> "entries_ret", list |-> reply]>>) /\ UNCHANGED <<running, watchers>>
        [] cop.op = "stop"    -> /\ c' = Feed(c, <<[ev |-> "stop_ret", k |-> cop.id]>>)
-                                /\ running' = FALSE /\ watchers' = watchers \cup {cop.id}
-  /\ UNCHANGED <<now, list, nx, pv, nadded, lpc, lnow, wi, timer, cop, reply, nops, nstops, jobs, wg, chain, sch, blk, jx, rx>>
+                                /\ UNCHANGED running /\ watchers' = watchers \cup {cop.id}
+  /\ UNCHANGED <<now, list, nx, pv, nadded, lpc, lnow, wi, timer, cop, reply, nops, nstops, jobs, wg, chain, sch, blk, jx, rx, rm>>
 
 CallSched == nadded < N /\ CallSchedWith(Scheds[nadded + 1].p, Scheds[nadded + 1].ph, (nadded + 1) \in Blocking, (nadded + 1) \in Panicking)
 Call == CallSched \/ CallEntries \/ CallStart \/ CallRun \/ CallStop \/ \E id \in Ids : CallRemove(id)
@@ -159,7 +196,7 @@ Call == CallSched \/ CallEntries \/ CallStart \/ CallRun \/ CallStop \/ \E id \i
 LInit == /\ lpc = "init" /\ lnow' = now
          /\ nx' = [i \in Ids |-> IF i \in Range(list) THEN SNext(i, now) ELSE nx[i]]
          /\ lpc' = "sort"
-         /\ UNCHANGED <<now, running, list, pv, nadded, wi, timer, cpc, cop, reply, nops, nstops, jobs, wg, watchers, c, chain, sch, blk, jx, rx>>
+         /\ UNCHANGED <<now, running, list, pv, nadded, wi, timer, cpc, cop, reply, nops, nstops, jobs, wg, watchers, c, chain, sch, blk, jx, rx, rm>>
 
 (* sort, arm the timer for entries[0].Next - now (relative to the clock's current time) *)
 LSort == /\ lpc = "sort" /\ list' = Sorted(list)
@@ -167,11 +204,11 @@ LSort == /\ lpc = "sort" /\ list' = Sorted(list)
                      ELSE [on |-> TRUE, dl |-> now + (nx[Sorted(list)[1]] - lnow), fired |-> FALSE,
                            buf |-> FALSE, val |-> 0]
          /\ lpc' = "select"
-         /\ UNCHANGED <<now, running, nx, pv, nadded, lnow, wi, cpc, cop, reply, nops, nstops, jobs, wg, watchers, c, chain, sch, blk, jx, rx>>
+         /\ UNCHANGED <<now, running, nx, pv, nadded, lnow, wi, cpc, cop, reply, nops, nstops, jobs, wg, watchers, c, chain, sch, blk, jx, rx, rm>>
 
 SelTimer == /\ lpc = "select" /\ timer.on /\ timer.buf
             /\ lnow' = timer.val /\ timer' = Off /\ lpc' = "wake" /\ wi' = 1
-            /\ UNCHANGED <<now, running, list, nx, pv, nadded, cpc, cop, reply, nops, nstops, jobs, wg, watchers, c, chain, sch, blk, jx, rx>>
+            /\ UNCHANGED <<now, running, list, nx, pv, nadded, cpc, cop, reply, nops, nstops, jobs, wg, watchers, c, chain, sch, blk, jx, rx, rm>>
 
 Before2(a, b) == a < b          \* time.Time.Before on the raw instants (the zero time is before everything)
 (* the leftover timer is stopped and drained before the next pass *)
@@ -183,18 +220,22 @@ SelAdd == /\ lpc = "select" /\ cpc = "sending" /\ cop.op = "sched"
           /\ lnow' = now /\ nx' = [nx EXCEPT ![cop.id] = SNext(cop.id, now)]
           /\ list' = Append(list, cop.id) /\ cpc' = "got"
           /\ IF KeepTimer THEN UNCHANGED <<timer, lpc>> ELSE timer' = Drained /\ lpc' = "sort"
-          /\ UNCHANGED <<now, running, pv, nadded, wi, cop, reply, nops, nstops, jobs, wg, watchers, c, chain, sch, blk, jx, rx>>
+          /\ UNCHANGED <<now, running, pv, nadded, wi, cop, reply, nops, nstops, jobs, wg, watchers, c, chain, sch, blk, jx, rx, rm>>
 SelRemove == /\ lpc = "select" /\ cpc = "sending" /\ cop.op = "remove"
              /\ lnow' = IF Variant = "stalenow" THEN lnow ELSE now
              /\ list' = Without(list, cop.id) /\ timer' = Drained /\ lpc' = "sort" /\ cpc' = "got"
-             /\ UNCHANGED <<now, running, nx, pv, nadded, wi, cop, reply, nops, nstops, jobs, wg, watchers, c, chain, sch, blk, jx, rx>>
+             /\ UNCHANGED <<now, running, nx, pv, nadded, wi, cop, reply, nops, nstops, jobs, wg, watchers, c, chain, sch, blk, jx, rx, rm>>
+SelRemoveR == /\ lpc = "select" /\ rm.pc = "sending"                       \* the remove arm, served to the second caller
+              /\ lnow' = IF Variant = "stalenow" THEN lnow ELSE now
+              /\ list' = Without(list, rm.id) /\ timer' = Drained /\ lpc' = "sort" /\ rm' = [rm EXCEPT !.pc = "got"]
+              /\ UNCHANGED <<now, running, nx, pv, nadded, wi, cpc, cop, reply, nops, nstops, jobs, wg, watchers, c, chain, sch, blk, jx, rx>>
 SelSnapshot == /\ lpc = "select" /\ cpc = "sending" /\ cop.op = "entries"
                /\ reply' = Snapshot /\ cpc' = "got"
-               /\ UNCHANGED <<now, running, list, nx, pv, nadded, lpc, lnow, wi, timer, cop, nops, nstops, jobs, wg, watchers, c, chain, sch, blk, jx, rx>>
+               /\ UNCHANGED <<now, running, list, nx, pv, nadded, lpc, lnow, wi, timer, cop, nops, nstops, jobs, wg, watchers, c, chain, sch, blk, jx, rx, rm>>
 SelStop == /\ lpc = "select" /\ cpc = "sending" /\ cop.op = "stop"
            /\ timer' = Off /\ lpc' = "off" /\ cpc' = "got"
            /\ rx' = IF rx.cur # 0 THEN [rx EXCEPT !.old = @ \cup {rx.cur}, !.cur = 0] ELSE rx
-           /\ UNCHANGED <<now, running, list, nx, pv, nadded, lnow, wi, cop, reply, nops, nstops, jobs, wg, watchers, c, chain, sch, blk, jx>>
+           /\ UNCHANGED <<now, running, list, nx, pv, nadded, lnow, wi, cop, reply, nops, nstops, jobs, wg, watchers, c, chain, sch, blk, jx, rm>>
 
 (* wake: every entry (in sorted order) whose Next is not after now is started *)
 LWake == /\ lpc = "wake"
@@ -206,9 +247,9 @@ LWake == /\ lpc = "wake"
                    /\ c' = Feed(c, <<[ev |-> "run", id |-> id]>>)
                    /\ wi' = wi + 1 /\ UNCHANGED lpc
               ELSE /\ lpc' = "sort" /\ UNCHANGED <<jobs, wg, pv, nx, c, wi>>
-         /\ UNCHANGED <<now, running, list, nadded, lnow, timer, cpc, cop, reply, nops, nstops, watchers, chain, sch, blk, jx, rx>>
+         /\ UNCHANGED <<now, running, list, nadded, lnow, timer, cpc, cop, reply, nops, nstops, watchers, chain, sch, blk, jx, rx, rm>>
 
-Loop == LInit \/ LSort \/ SelTimer \/ SelAdd \/ SelRemove \/ SelSnapshot \/ SelStop \/ LWake
+Loop == LInit \/ LSort \/ SelTimer \/ SelAdd \/ SelRemove \/ SelRemoveR \/ SelSnapshot \/ SelStop \/ LWake
 
 (* ---------------- job goroutines, Stop's waiter ---------------- *)
 SetSt(j, st) == [jobs EXCEPT ![j].st = st]
@@ -222,14 +263,14 @@ JBegin(j) == /\ jobs[j].st = "spawned"
              /\ wg' = IF Variant = "lateadd" THEN wg + 1 ELSE wg
              /\ jobs' = SetSt(j, IF jobs[j].id \in blk THEN "blocked" ELSE "running")
              /\ c' = Feed(c, <<[ev |-> "jobstart", id |-> jobs[j].id]>>)
-             /\ UNCHANGED <<now, running, list, nx, pv, nadded, lpc, lnow, wi, timer, cpc, cop, reply, nops, nstops, watchers, chain, sch, blk, jx, rx>>
+             /\ UNCHANGED <<now, running, list, nx, pv, nadded, lpc, lnow, wi, timer, cpc, cop, reply, nops, nstops, watchers, chain, sch, blk, jx, rx, rm>>
 JSkip(j) == /\ jobs[j].st = "spawned" /\ chain \in {"skip", "recover+skip"} /\ Held(j)
             /\ wg' = IF Variant = "lateadd" THEN wg ELSE wg - 1
             /\ jobs' = [k \in 1..(Len(jobs) - 1) |-> IF k < j THEN jobs[k] ELSE jobs[k + 1]]
             /\ c' = Feed(c, <<[ev |-> "jobskip", id |-> jobs[j].id]>>)
-            /\ UNCHANGED <<now, running, list, nx, pv, nadded, lpc, lnow, wi, timer, cpc, cop, reply, nops, nstops, watchers, chain, sch, blk, jx, rx>>
+            /\ UNCHANGED <<now, running, list, nx, pv, nadded, lpc, lnow, wi, timer, cpc, cop, reply, nops, nstops, watchers, chain, sch, blk, jx, rx, rm>>
 JUnblock(j) == /\ jobs[j].st = "blocked" /\ jobs' = SetSt(j, "running")
-               /\ UNCHANGED <<now, running, list, nx, pv, nadded, lpc, lnow, wi, timer, cpc, cop, reply, nops, nstops, wg, watchers, c, chain, sch, blk, jx, rx>>
+               /\ UNCHANGED <<now, running, list, nx, pv, nadded, lpc, lnow, wi, timer, cpc, cop, reply, nops, nstops, wg, watchers, c, chain, sch, blk, jx, rx, rm>>
 JEnd(j) == /\ jobs[j].st = "running" /\ wg' = wg - 1
            /\ jobs' = [k \in 1..(Len(jobs) - 1) |-> IF k < j THEN jobs[k] ELSE jobs[k + 1]]
            /\ c' = Feed(c, <<[ev |-> "jobend", id |-> jobs[j].id]>>)
@@ -239,10 +280,10 @@ JEnd(j) == /\ jobs[j].st = "running" /\ wg' = wg - 1
                          THEN [jx EXCEPT !.done = @ \cup {id},
                                          !.stuck = IF Variant = "delayNoDefer" /\ chain \in {"delay", "recover+delay"} THEN @ \cup {id} ELSE @]
                          ELSE jx
-           /\ UNCHANGED <<now, running, list, nx, pv, nadded, lpc, lnow, wi, timer, cpc, cop, reply, nops, nstops, watchers, chain, sch, blk, rx>>
+           /\ UNCHANGED <<now, running, list, nx, pv, nadded, lpc, lnow, wi, timer, cpc, cop, reply, nops, nstops, watchers, chain, sch, blk, rx, rm>>
 WDone(k) == /\ k \in watchers /\ wg = 0 /\ watchers' = watchers \ {k}
             /\ c' = Feed(c, <<[ev |-> "stopctx_done", k |-> k]>>)
-            /\ UNCHANGED <<now, running, list, nx, pv, nadded, lpc, lnow, wi, timer, cpc, cop, reply, nops, nstops, jobs, wg, chain, sch, blk, jx, rx>>
+            /\ UNCHANGED <<now, running, list, nx, pv, nadded, lpc, lnow, wi, timer, cpc, cop, reply, nops, nstops, jobs, wg, chain, sch, blk, jx, rx, rm>>
 Job == \E j \in 1..Len(jobs) : JBegin(j) \/ JEnd(j) \/ JSkip(j)
 Unblock == \E j \in 1..Len(jobs) : JUnblock(j)
 Waiter == \E k \in watchers : WDone(k)
@@ -250,24 +291,30 @@ Waiter == \E k \in watchers : WDone(k)
 (* ---------------- the fake clock ---------------- *)
 Pending == timer.on /\ (timer.buf \/ (~timer.fired /\ timer.dl <= now))
 Parked == lpc \in {"off", "select"}
-Step(d) == /\ cpc = "idle" /\ Parked /\ now + d <= MaxNow
+Step(d) == /\ cpc = "idle" /\ rm.pc = "idle" /\ Parked /\ now + d <= MaxNow
            /\ now' = now + d
            /\ timer' = IF timer.on /\ ~timer.fired /\ timer.dl <= now + d
                          THEN [timer EXCEPT !.fired = TRUE, !.buf = TRUE, !.val = now + d] ELSE timer
            /\ c' = Feed(c, <<[ev |-> "adv", now |-> now + d]>>)
-           /\ UNCHANGED <<running, list, nx, pv, nadded, lpc, lnow, wi, cpc, cop, reply, nops, nstops, jobs, wg, watchers, chain, sch, blk, jx, rx>>
+           /\ UNCHANGED <<running, list, nx, pv, nadded, lpc, lnow, wi, cpc, cop, reply, nops, nstops, jobs, wg, watchers, chain, sch, blk, jx, rx, rm>>
 Adv == \E d \in 1..MaxStep : ~Pending /\ Step(d)
 Nudge == timer.on /\ ~timer.fired /\ timer.dl <= now /\ Step(0)
 
 (* a quiescent point as the harness reports it *)
-Quiet == /\ cpc = "idle" /\ Parked /\ rx.old = {} /\ rx.noop = {} /\ ~(timer.on /\ timer.buf)     \* an unfired timer, even overdue, leaves the loop blocked
+Quiet == /\ cpc = "idle" /\ rm.pc = "idle" /\ Parked /\ rx.old = {} /\ rx.noop = {} /\ ~(timer.on /\ timer.buf)     \* an unfired timer, even overdue, leaves the loop blocked
          /\ \A j \in 1..Len(jobs) : jobs[j].st = "blocked" \/ (jobs[j].st = "spawned" /\ chain \in {"delay", "recover+delay"} /\ Held(j))
          /\ (watchers = {} \/ wg > 0)
 Quiesce == /\ Quiet /\ c' = Feed(c, <<[ev |-> "quiescent"]>>)
-           /\ UNCHANGED <<now, running, list, nx, pv, nadded, lpc, lnow, wi, timer, cpc, cop, reply, nops, nstops, jobs, wg, watchers, chain, sch, blk, jx, rx>>
+           /\ UNCHANGED <<now, running, list, nx, pv, nadded, lpc, lnow, wi, timer, cpc, cop, reply, nops, nstops, jobs, wg, watchers, chain, sch, blk, jx, rx, rm>>
 
-Next == Call \/ Ret \/ RunRets \/ Loop \/ Job \/ Unblock \/ Waiter \/ Adv \/ Nudge \/ Quiesce
-Spec == Init /\ [][Next]_vars /\ WF_vars(Loop) /\ WF_vars(Ret) /\ WF_vars(RunRets) /\ WF_vars(Job) /\ WF_vars(Nudge) /\ WF_vars(Waiter)
+(* end of a run as the harness reports it: a call is still in flight although nothing else can move *)
+Wedged == /\ rm.pc = "sending" /\ cpc = "idle" /\ lpc = "off"
+          /\ rx.old = {} /\ rx.noop = {} /\ \A j \in 1..Len(jobs) : jobs[j].st = "blocked"
+Stuck == /\ Wedged /\ c' = Feed(c, <<[ev |-> "stuck", n |-> 1]>>)
+         /\ UNCHANGED <<now, running, list, nx, pv, nadded, lpc, lnow, wi, timer, cpc, cop, reply, nops, nstops, jobs, wg, watchers, chain, sch, blk, jx, rx, rm>>
+
+Next == Call \/ (\E id \in Ids : RCall(id)) \/ StopLock \/ Rem \/ Stuck \/ Ret \/ RetRelease \/ RunRets \/ Loop \/ Job \/ Unblock \/ Waiter \/ Adv \/ Nudge \/ Quiesce
+Spec == Init /\ [][Next]_vars /\ WF_vars(Loop) /\ WF_vars(Ret) /\ WF_vars(RetRelease) /\ WF_vars(StopLock) /\ WF_vars(Rem) /\ WF_vars(RunRets) /\ WF_vars(Job) /\ WF_vars(Nudge) /\ WF_vars(Waiter)
 
 (* ---------------- properties ---------------- *)
 Accepted == ~IsBad(c)
@@ -277,6 +324,6 @@ ViewsAgree == (Quiet /\ ~Pending /\ running /\ ~IsBad(c)) =>
                                         /\ c.ents[list[k]].prev = pv[list[k]]
 WaitGroupSane == wg >= 0
 (* liveness: every call returns; what is due gets started (or is cancelled by Remove/Stop) *)
-CallsReturn == (cpc # "idle") ~> (cpc = "idle")
+CallsReturn == ((cpc # "idle") ~> (cpc = "idle")) /\ ((rm.pc # "idle") ~> (rm.pc = "idle"))
 DueStarted == \A i \in Ids : (i \in DOMAIN c.ents /\ c.ents[i].owed > 0) ~> (i \in DOMAIN c.ents /\ c.ents[i].owed = 0)
 =============================================================================
